@@ -450,3 +450,50 @@ def opHIST (op : String) (args obs : List String) : Option DecOut :=
     | none => none
   | _, _ => none
 end FV.Driver
+
+namespace FV.Driver
+/-- options a constructor leaves in a new message (two entries; a 12-byte stream for the FromBytes ones) -/
+def ctorOptions : String → Option (Option Options)
+  | "NM" | "NX" | "NB" => some none
+  | "NF" | "NP" => some (some { size := some 2 })
+  | "NC" => some (some { size := some 2, compressed := vGzip })
+  | "ND" => some (some { compressed := vGzip })
+  | _ => none
+
+/-- `CIDS ctor:action … => before|id|after … final=…`: several messages alive in one process -/
+def opCIDS (args obs : List String) : Option DecOut := do
+  let fin ← obs.getLast?
+  let per := obs.dropLast
+  if per.length != args.length || !fin.startsWith "final=" then none else
+  let finals := ((fin.drop 6).toString.splitOn ",")
+  let rows := (args.zip per).zip finals
+  let step (acc : List String × List String × List Bytes) (row : (String × String) × String) :
+      List String × List String × List Bytes :=
+    let (corr, fails, gen) := acc
+    let ((spec, o), finId) := row
+    let k := (spec.take 2).toString; let act := (spec.drop 3).toString
+    match ctorOptions k, o.splitOn "|" with
+    | some base, [before, idh, after] =>
+      let id := (parseHex idh).getD []
+      let c1 := if renderOptions base == before then [] else [s!"{k}: new message has options {before}, model {renderOptions base}"]
+      if act == "n" then
+        (corr ++ c1 ++ (if after == before then [] else [s!"{k}: options changed without a call"]),
+         fails ++ (if finId == "-" || finId == "" then [] else [s!"C12 {k}: a message nobody assigned an id to carries {finId}"]), gen)
+      else
+        let preset : Bytes := if act.startsWith "p" then (parseHex (act.drop 1).toString).getD [] else []
+        let opts0 : Option Options := if preset.isEmpty then base else some { (base.getD {}) with chunk := preset }
+        let draw := (b64dec id).getD []
+        let (mo, mid) := chunkCall opts0 draw
+        let c2 := if mid == id && renderOptions mo == after then [] else [s!"{k}: model id={toHex mid} opts={renderOptions mo} go id={idh} opts={after}"]
+        let shapeOk := !preset.isEmpty || (draw.length == 16 && uuidMask draw == draw)
+        let f :=
+          (if !preset.isEmpty && id != preset then [s!"C12 {k}: caller-supplied id not preserved"] else []) ++
+          (if shapeOk then [] else [s!"C12 {k}: generated id is not base64 of a version-4 UUID"]) ++
+          (if preset.isEmpty && gen.contains id then [s!"C12 {k}: generated id coincides with the id of another message"] else []) ++
+          (if finId == idh then [] else [s!"C12 {k}: id changed after it was assigned ({idh} -> {finId})"])
+        (corr ++ c1 ++ c2, fails ++ f, if preset.isEmpty then id :: gen else gen)
+    | _, _ => (corr ++ [s!"bad row {spec} {o}"], fails, gen)
+  let (corr, fails, _) := rows.foldl step ([], [], [])
+  pure { corr := if corr.isEmpty then none else some (" || ".intercalate corr), fails := fails,
+         branch := s!"cids.{args.length}" }
+end FV.Driver
